@@ -44,6 +44,12 @@ def gen_vmx(rng):
             entries.append((f"{pre}.redo", ""))
         if rng.random() < 0.2:
             entries.append((f"{pre}.mode", "independent-persistent"))
+        if rng.random() < 0.25:
+            # sub-settings of a device (change tracking, digests, caches, scheduling) are not devices, whatever their last component
+            sub_ = rng.choice(["ctk", "digest", "cache", "log", "sched"])
+            entries.append((f"{pre}.{sub_}.fileName", fname(rng, rng.choice(["-ctk.vmdk", ".bin", ".vmdk"]))))
+            if rng.random() < 0.5:
+                entries.append((f"{pre}.{sub_}.present", "TRUE"))
     for cls in {c for c, _, _ in devices}:
         for b in {b for c, b, _ in devices if c == cls}:
             entries.append((f"{cls}{b}.present", "TRUE"))
@@ -51,6 +57,8 @@ def gen_vmx(rng):
                 entries.append((f"{cls}{b}.virtualDev", rng.choice(["lsilogic", "pvscsi", "lsisas1068"])))
             if rng.random() < 0.3:
                 entries.append((f"{cls}{b}.pciSlotNumber", str(rng.randrange(16, 300))))
+            if rng.random() < 0.15:
+                entries.append((f"{cls}{b}.log.fileName", fname(rng, ".vmdk")))
     unrelated = [("displayName", fname(rng, "")), ("guestOS", "other-64"), ("memsize", "1024"), ("ethernet0.fileName", "not-a-disk.bin"),
                  ("floppy0.fileName", "floppy.flp"), ("floppy0.present", "TRUE"), ("ethernet0.present", "TRUE"), ("a.b.c", "x"),
                  ("usb.present", "TRUE"), ("sound.fileName", "-1"), ("serial0.fileName", "serial.out"), ("vmci0.present", "TRUE"),
